@@ -225,10 +225,34 @@ func init() {
 
 		// ---- leader: Replica / Connect / partition.replica
 		replica := FindFunc(rr, "remoteReplicator", "Replica")
-		if err := cond(c08CondWith(replica, "resp.AckIndex"), "ackCond", []string{"ackIndex", "replicaIndex"},
+		ackIf, ackCmp := c08AckIf(replica)
+		if err := cond(ackCmp, "ackCond", []string{"ackIndex", "replicaIndex"},
 			map[string]string{"resp.AckIndex": "ackIndex", "resp.ReplicaIndex": "replicaIndex"}); err != nil {
 			return "", err
 		}
+		// shape of the treatment of an answer that does not acknowledge the sent index: does the else
+		// branch store ReplicatorFailureState (forcing a new handshake), and is resp.Err looked at
+		mfail, errChecked := "false", "false"
+		if ackIf != nil {
+			if strings.Contains(types.ExprString(ackIf.Cond), "resp.Err") {
+				errChecked = "true"
+			}
+			if ackIf.Else != nil {
+				ast.Inspect(ackIf.Else, func(n ast.Node) bool {
+					if c, ok := n.(*ast.CallExpr); ok && strings.HasSuffix(types.ExprString(c.Fun), "state.Store") && len(c.Args) == 1 {
+						ast.Inspect(c.Args[0], func(m ast.Node) bool { // (ExprString elides composite literals)
+							if id, ok := m.(*ast.Ident); ok && id.Name == "ReplicatorFailureState" {
+								mfail = "true"
+							}
+							return true
+						})
+					}
+					return true
+				})
+			}
+		}
+		sb.WriteString("def mismatchSetsFailure : Bool := " + mfail + "\n")
+		sb.WriteString("def respErrChecked : Bool := " + errChecked + "\n\n")
 		sb.WriteString("def replicaCalls : List String := " + LeanStrList(c08Calls(replica)) + "\n")
 		sb.WriteString("def replicaAckArg : String := " + fmt.Sprintf("%q", c08Text(c08CallArg(replica, "r.SetAckIndex", 0))) + "\n")
 		sb.WriteString("def connectCalls : List String := " + LeanStrList(c08Calls(FindFunc(rr, "remoteReplicator", "Connect"))) + "\n")
@@ -398,6 +422,30 @@ func c08PutFailResult(fd *ast.FuncDecl) ast.Expr {
 		return true
 	})
 	return out
+}
+
+// c08AckIf returns the if statement of fd whose condition contains the comparison
+// `resp.AckIndex == resp.ReplicaIndex`, and that comparison.
+func c08AckIf(fd *ast.FuncDecl) (*ast.IfStmt, ast.Expr) {
+	var st *ast.IfStmt
+	var cmp ast.Expr
+	if fd == nil || fd.Body == nil {
+		return nil, nil
+	}
+	ast.Inspect(fd.Body, func(n ast.Node) bool {
+		is, ok := n.(*ast.IfStmt)
+		if !ok || st != nil {
+			return true
+		}
+		ast.Inspect(is.Cond, func(m ast.Node) bool {
+			if b, ok := m.(*ast.BinaryExpr); ok && b.Op == token.EQL && types.ExprString(b) == "resp.AckIndex == resp.ReplicaIndex" {
+				st, cmp = is, b
+			}
+			return true
+		})
+		return true
+	})
+	return st, cmp
 }
 
 // c08Calls = CallSeq without logging/statistics/lock noise (those are not modelled).
